@@ -93,6 +93,43 @@ def tolerances(pr, x, work):
     return tm, tg, tf
 
 
+def large_data_case(rnd, k):
+    """Thousands of data (around and beyond block sizes such as 4096): misfit and gradient against the formula, computed directly
+    with numpy from the per-datum weights.  No Coq case here: the statement is checked on the implementation only."""
+    from hmclab.Distributions import LinearMatrix as LM
+    m = [4096, 4097, 5000, 8193, 2500, 9001][k % 6]
+    n = rnd.randint(2, 4)
+    g = numpy.random.default_rng(900 + k)
+    G = numpy.round(g.normal(size=(m, n)) * 8) / 8
+    d = numpy.round(g.normal(size=(m, 1)) * 8) / 8
+    ck = rnd.choice(["scalar", "vector"])
+    if ck == "scalar":
+        cov, w = 0.5, numpy.full((m, 1), 2.0)
+    else:
+        cov = numpy.array([[rnd.choice([0.25, 0.5, 1.0, 2.0])] for _ in range(m)])
+        w = 1.0 / cov
+    sparse = rnd.random() < 0.5
+    pm = rnd.choice([True, None, None, False])
+    Garg = scipy.sparse.csr_matrix(G) if sparse else G.copy()
+    desc = f"{'sparse' if sparse else 'dense'} G {m}x{n}, cov {ck}, premultiplication={pm}, float64"
+    with warnings.catch_warnings():
+        warnings.simplefilter("ignore")
+        obj = LM(Garg, d.copy(), cov if ck == "scalar" else cov.copy(), dtype=numpy.dtype(numpy.float64), **({} if pm is None else {"premultiplication": pm}))
+    x = numpy.array([[dy(rnd, -3, 3)] for _ in range(n)])
+    r = G @ x - d
+    want_m = 0.5 * float((r * w * r).sum())
+    want_g = G.T @ (w * r)
+    mis = float(obj.misfit(x.copy()))
+    grad = numpy.asarray(obj.gradient(x.copy()), dtype=float).reshape(-1, 1)
+    # (the wrapper's back ends keep their arrays in float32 unless told otherwise: the working precision is what they hold)
+    dts = [numpy.dtype(v.dtype) for v in vars(obj.Distribution).values() if isinstance(v, numpy.ndarray) or scipy.sparse.issparse(v)]
+    eps = 3e-6 if any(t == numpy.float32 for t in dts) else 1e-10
+    tol = eps * (abs(want_m) + 1.0)
+    if abs(mis - want_m) > tol or float(numpy.max(numpy.abs(grad - want_g))) > eps * (float((numpy.abs(G).T @ numpy.abs(w * r)).max()) + 1.0):
+        return [("misfit-formula-large", f"{desc} at {x.flatten().tolist()}: misfit {mis} / gradient {grad.flatten().tolist()}, 1/2 r^T C^-1 r = {want_m} / G^T C^-1 r = {want_g.flatten().tolist()}")]
+    return []
+
+
 def run(tier, seed):
     common.setup_env()
     import hmclab
@@ -102,6 +139,13 @@ def run(tier, seed):
     goals, owners, metas, violations, samples, seen = [], [], [], [], [], set()
     dist = {"dense": 0, "sparse": 0, "float32": 0, "float64": 0, "premult_true": 0, "pickled": 0, "wrapper": 0, "concrete": 0, "bounded": 0, "build_errors": 0}
     combos = set()
+    for k in range(12 if tier == "quick" else 60):
+        dist["large_data_cases"] = dist.get("large_data_cases", 0) + 1
+        try:
+            for key, what in large_data_case(rnd, k):
+                violations.append(Violation(key, what, {"large_data_case": k}))
+        except Exception as e:  # noqa
+            violations.append(Violation("large-data-raised", f"LinearMatrix with thousands of data raised {type(e).__name__}: {str(e)[:160]}", {"large_data_case": k}))
     for i in range(n):
         pr = gen_problem(rnd)
         x = [dy(rnd, -3, 3) for _ in range(pr["n"])]
@@ -216,7 +260,7 @@ def run(tier, seed):
         violations.append(Violation("coq-error", "interval shard failed: " + log[-300:], {"log": log, "no_failing_input_found": True}))
     return {
         "evaluations": len(metas), "distinct_nontrivial": len(seen),
-        "rule": "random small problems (1..3 parameters, under/over/exactly determined, dyadic entries) x dense/sparse x scalar (python and numpy float) / per-datum / "
+        "rule": "twelve (thorough: sixty) problems with 2500-9001 data around block sizes, checked against the formula on the implementation only; random small problems (1..3 parameters, under/over/exactly determined, dyadic entries) x dense/sparse x scalar (python and numpy float) / per-datum / "
                 "full covariance x premultiplication True/False/None/omitted x float32/float64 x wrapper/concrete x pickled; every successfully built instance is "
                 "non-trivial; distinct by description and point",
         "samples": samples, "violations": violations,
